@@ -139,8 +139,9 @@ func snapGeneric(s snap, d *generic.Driver) {
 }
 
 type built struct {
-	s   snap
-	err error
+	s      snap
+	err    error
+	resnap func() snap // snapshot of the same object taken again later
 }
 
 // construct builds a driver through one of the four constructors and snapshots it.
@@ -155,37 +156,58 @@ func construct(ctor string, opts []util.Option) (b built) {
 	case "generic":
 		d, err := generic.NewDriver("host", opts...)
 		if err != nil {
-			return built{nil, err}
+			return built{err: err}
 		}
 		snapGeneric(s, d)
+		b.resnap = func() snap { r := snap{}; snapGeneric(r, d); return r }
 	case "network":
 		d, err := network.NewDriver("host", append([]util.Option{options.WithPrivilegeLevels(basePrivs), options.WithDefaultDesiredPriv("exec")}, opts...)...)
 		if err != nil {
-			return built{nil, err}
+			return built{err: err}
 		}
 		snapGeneric(s, d.Driver)
 		fields(s, "net.", d, map[string]bool{"Driver": true})
+		b.resnap = func() snap {
+			r := snap{}
+			snapGeneric(r, d.Driver)
+			fields(r, "net.", d, map[string]bool{"Driver": true})
+			return r
+		}
 	case "netconf":
 		d, err := netconf.NewDriver("host", opts...)
 		if err != nil {
-			return built{nil, err}
+			return built{err: err}
 		}
 		fields(s, "nc.", d, map[string]bool{"Transport": true, "Channel": true})
 		fields(s, "ch.", d.Channel, map[string]bool{"Q": true, "Errs": true})
 		snapTransport(s, d.Transport)
+		b.resnap = func() snap {
+			r := snap{}
+			fields(r, "nc.", d, map[string]bool{"Transport": true, "Channel": true})
+			fields(r, "ch.", d.Channel, map[string]bool{"Q": true, "Errs": true})
+			snapTransport(r, d.Transport)
+			return r
+		}
 	case "platform":
 		p, err := platform.NewPlatform([]byte(platformYAML("")), "host", opts...)
 		if err != nil {
-			return built{nil, err}
+			return built{err: err}
 		}
 		d, err := p.GetNetworkDriver()
 		if err != nil {
-			return built{nil, err}
+			return built{err: err}
 		}
 		snapGeneric(s, d.Driver)
 		fields(s, "net.", d, map[string]bool{"Driver": true})
+		b.resnap = func() snap {
+			r := snap{}
+			snapGeneric(r, d.Driver)
+			fields(r, "net.", d, map[string]bool{"Driver": true})
+			return r
+		}
 	}
-	return built{s, nil}
+	b.s = s
+	return b
 }
 
 func platformYAML(optionsBlock string) string {
@@ -272,6 +294,10 @@ func re(i int, a, b string) *regexp.Regexp {
 
 func two(a, b string) [2]string { return [2]string{a, b} }
 
+// sl builds a slice with spare capacity, as slices built by append (YAML lists, accumulated flags) have: an
+// option that keeps the caller's slice and later appends to it would write into memory shared with other drivers.
+func sl(e ...string) []string { return append(make([]string, 0, len(e)+6), e...) }
+
 func specs() []optSpec {
 	pick := func(v int, a, b string) string {
 		if v == 0 {
@@ -297,7 +323,7 @@ func specs() []optSpec {
 		{name: "ChannelLog", mk: func(v int) util.Option { return options.WithChannelLog(logW[v]) }, set: map[string][2]string{"ch.ChannelLog": two("W0", "W1")}},
 		{name: "TransportType", mk: func(v int) util.Option { return options.WithTransportType(pick(v, "standard", "telnet")) },
 			set: map[string][2]string{"drv.TransportType": two("standard", "telnet"), "nc.TransportType": two("standard", "telnet"), "impl.type": two("*transport.Standard", "*transport.Telnet")}, ignoreImpl: true},
-		{name: "FailedWhenContains", mk: func(v int) util.Option { return options.WithFailedWhenContains([]string{pick(v, "f0", "f1")}) }, set: map[string][2]string{"drv.FailedWhenContains": two(`["f0"]`, `["f1"]`)}},
+		{name: "FailedWhenContains", mk: func(v int) util.Option { return options.WithFailedWhenContains(sl(pick(v, "f0", "f1"))) }, set: map[string][2]string{"drv.FailedWhenContains": two(`["f0"]`, `["f1"]`)}},
 		{name: "OnOpen", mk: func(v int) util.Option { return options.WithOnOpen(gOnOpen[v]) }, set: map[string][2]string{"drv.OnOpen": two("gOnOpen0", "gOnOpen1")}},
 		{name: "OnClose", mk: func(v int) util.Option { return options.WithOnClose(gOnClose[v]) }, set: map[string][2]string{"drv.OnClose": two("gOnClose0", "gOnClose1")}},
 		{name: "Logger", mk: func(v int) util.Option { return options.WithLogger(loggers[v]) }, set: map[string][2]string{"drv.Logger": two("L0", "L1"), "nc.Logger": two("L0", "L1")}},
@@ -325,18 +351,18 @@ func specs() []optSpec {
 		{name: "SSHKnownHostsFile", mk: func(v int) util.Option { return options.WithSSHKnownHostsFile(khFile[v]) }, set: map[string][2]string{"ssh.KnownHostsFile": two(khFile[0], khFile[1])}},
 		{name: "SSHKnownHostsFileSystem", mk: func(v int) util.Option { return options.WithSSHKnownHostsFileSystem() }, diff: true},
 		{name: "StandardExtraCiphers", mk: func(v int) util.Option {
-			return options.WithStandardTransportExtraCiphers([]string{pick(v, "c0", "c1")})
+			return options.WithStandardTransportExtraCiphers(sl(pick(v, "c0", "c1")))
 		}, set: map[string][2]string{"impl.ExtraCiphers": two(`["c0"]`, `["c1"]`)}, needs: "standard"},
-		{name: "StandardExtraKexs", mk: func(v int) util.Option { return options.WithStandardTransportExtraKexs([]string{pick(v, "k0", "k1")}) }, set: map[string][2]string{"impl.ExtraKexs": two(`["k0"]`, `["k1"]`)}, needs: "standard"},
+		{name: "StandardExtraKexs", mk: func(v int) util.Option { return options.WithStandardTransportExtraKexs(sl(pick(v, "k0", "k1"))) }, set: map[string][2]string{"impl.ExtraKexs": two(`["k0"]`, `["k1"]`)}, needs: "standard"},
 		{name: "SystemOpenBin", mk: func(v int) util.Option { return options.WithSystemTransportOpenBin(pick(v, "/bin/s0", "/bin/s1")) }, set: map[string][2]string{"impl.OpenBin": two("/bin/s0", "/bin/s1")}, needs: "system"},
 		// ssh arguments come as flag/value pairs: the two values share their first token
-		{name: "SystemOpenArgs", mk: func(v int) util.Option { return options.WithSystemTransportOpenArgs([]string{"-o", pick(v, "A=0", "B=1")}) }, app: map[string][2]string{"impl.ExtraArgs": two("-o\x00A=0", "-o\x00B=1")}, needs: "system"},
+		{name: "SystemOpenArgs", mk: func(v int) util.Option { return options.WithSystemTransportOpenArgs(sl("-o", pick(v, "A=0", "B=1"))) }, app: map[string][2]string{"impl.ExtraArgs": two("-o\x00A=0", "-o\x00B=1")}, needs: "system"},
 		// the ordinary "unencrypted key" call: names the key path and (empty) passphrase
 		{name: "AuthPrivateKeyPlain", mk: func(v int) util.Option {
 			return options.WithAuthPrivateKey(pick(v, "/k2", "/k3"), "")
 		}, set: map[string][2]string{"ssh.PrivateKeyPath": two("/k2", "/k3"), "ssh.PrivateKeyPassPhrase": two("", "")}},
 		{name: "SystemOpenArgsOverride", mk: func(v int) util.Option {
-			return options.WithSystemTransportOpenArgsOverride([]string{pick(v, "o0", "o1")})
+			return options.WithSystemTransportOpenArgsOverride(sl(pick(v, "o0", "o1")))
 		}, set: map[string][2]string{"impl.OpenArgs": two(`["o0"]`, `["o1"]`)}, needs: "system"},
 	}
 }
@@ -537,6 +563,47 @@ func scenarios(tier string) []sched.Scenario {
 				}
 			}
 		}})
+		out = append(out, sched.Scenario{Name: "reuse/" + ctor, Run: func(w *sched.W) {
+			// the same option values are used for two drivers (shared defaults + a per-host option): building the
+			// second driver must leave the first one as it was
+			setup()
+			defer os.RemoveAll(tmpDir)
+			sp := specs()
+			for _, a := range sp {
+				for _, b := range sp {
+					if a.needs != "" && b.needs != "" && a.needs != b.needs {
+						continue
+					}
+					if a.name == "CustomTransport" {
+						continue // the user hands over one transport object: sharing it is the user's choice
+					}
+					base := a.needs
+					if base == "" {
+						base = b.needs
+					}
+					if base == "system" {
+						base = ""
+					}
+					cse := fmt.Sprintf("reuse ctor=%s base=%s shared=%s then %s#0 / %s#1", ctor, base, a.name, b.name, b.name)
+					w.Case("", cse)
+					shared := a.mk(0)
+					o1 := append(append(append([]util.Option{}, baseFor(base)...), shared), b.mk(0))
+					o2 := append(append(append([]util.Option{}, baseFor(base)...), shared), b.mk(1))
+					d1 := construct(ctor, o1)
+					if d1.err != nil || d1.resnap == nil {
+						continue
+					}
+					d2 := construct(ctor, o2)
+					if d2.err != nil {
+						continue
+					}
+					after := d1.resnap()
+					if d := diffSnap(after, d1.s, map[string]bool{}); d != "" {
+						w.Violate("c19:second-driver-changes-first", cse+": after the second driver was built the first one has "+d, cse)
+					}
+				}
+			}
+		}})
 		out = append(out, sched.Scenario{Name: "groups/" + ctor, Run: func(w *sched.W) {
 			setup()
 			defer os.RemoveAll(tmpDir)
@@ -653,6 +720,8 @@ func platformOptions(w *sched.W) {
 		{"return-char", `"\r\n"`, "ch.ReturnChar", `"\r\n"`, "", options.WithReturnChar("\r"), `"\r"`},
 		{"read-delay", "0.005", "ch.ReadDelay", "5ms", "", options.WithReadDelay(9 * time.Millisecond), "9ms"},
 		{"read-delay", "1", "ch.ReadDelay", "1s", "", nil, ""},
+		{"read-delay", "0.00025", "ch.ReadDelay", "250µs", "", nil, ""}, // the library's own default, as a platform value
+		{"timeout-ops", "0.0625", "ch.TimeoutOps", "62.5ms", "", nil, ""},
 		{"timeout-ops", "12.5", "ch.TimeoutOps", "12.5s", "", options.WithTimeoutOps(3 * time.Second), "3s"},
 		{"timeout-ops", "30", "ch.TimeoutOps", "30s", "", nil, ""},
 		{"transport-type", "'standard'", "drv.TransportType", "standard", "", options.WithTransportType("telnet"), "telnet"},
